@@ -66,6 +66,19 @@ def topologies(tier):
         return structs.build_struct(s, loads, load_factor=1.5, setup_kw=setup_kw)
     T.append(("struct-tube-weight-relief", struct_tube, ["wing.failure", "wing.structural_mass", "wing.thickness_intersects"], ["wing.thickness_cp", "wing.loads", "wing.load_factor"], ["default", "ScipyKrylov", "LinearBlockGS"], 1e-6))
 
+    def struct_point_masses(setup_kw):
+        # engines as point masses with thrust, placed BETWEEN structural nodes and below the beam (their nodal weighting and
+        # moment arms then depend on the locations); ComputePointMassLoads / ComputeThrustLoads declare complex-step partials
+        m = crm(num_y=7); y = m[0, :, 1]
+        s = gen.tube_surface(m, symmetry=True, name="wing", thickness_cp=np.array([0.05, 0.06, 0.07]), struct_weight_relief=True, n_point_masses=2)
+        loads = np.zeros((m.shape[1], 6)); loads[:, 2] = 1e4 * np.linspace(0.2, 1.0, m.shape[1])
+        extra = {"point_masses": (np.array([[800.0, 300.0]]), "kg"),
+                 "point_mass_locations": (np.array([[m[0, 1, 0] + 0.5, 0.55 * y[0] + 0.45 * y[1], -0.8], [m[0, 2, 0] + 1.0, 0.3 * y[1] + 0.7 * y[2], -0.5]]), "m"),
+                 "engine_thrusts": (np.array([[4e4, 2e4]]), "N")}
+        return structs.build_struct(s, loads, load_factor=1.7, extra=extra, setup_kw=setup_kw)
+    T.append(("struct-tube-point-masses-thrust", struct_point_masses, ["wing.failure", "wing.structural_mass"],
+              ["wing.point_mass_locations", "wing.point_masses", "wing.engine_thrusts", "wing.load_factor", "wing.thickness_cp"], ["default"], 1e-6))
+
     def struct_wingbox(setup_kw):
         m = crm()
         s = gen.wingbox_surface(m, symmetry=True, name="wing", spar_thickness_cp=np.array([0.006, 0.008]), skin_thickness_cp=np.array([0.012, 0.015]), struct_weight_relief=True, t_over_c_cp=np.array([0.12, 0.12]))
